@@ -23,7 +23,7 @@ from .common import lst, blit, natlit, zlit
 P = 1000003
 HEADER = """From Coq Require Import List ZArith Bool.
 Import ListNotations.
-From LV Require Import Graph.Graph Graph.GraphX Graph.CorrC01 Graph.CorrC01X.
+From LV Require Import Graph.Graph Graph.GraphX Graph.GraphF Graph.CorrC01 Graph.CorrC01F.
 Open Scope Z_scope.
 """
 
@@ -33,6 +33,14 @@ LIT_MAX_NODES = 13     # graphs up to this size are additionally run with the li
 def aff(salt, coefs, vals):
     assert len(coefs) == len(vals), (coefs, vals)
     return (salt + sum(c * v for c, v in zip(coefs, vals))) % P
+
+
+class HarnessRaise(ArithmeticError):
+    """raised by a node function of the harness for its designated argument values"""
+
+
+def raises(rz, t):
+    return rz is not None and t % rz[0] == rz[1]
 
 
 class LP(list):
@@ -78,13 +86,21 @@ def apply_fs(fs, vals):
 KW = ["a", "b", "c"]
 
 
-def gen_spec(rnd: random.Random, nitems: int, flavour: str = "mixed", per_obs: bool = False) -> dict:
+def gen_spec(rnd: random.Random, nitems: int, flavour: str = "mixed", per_obs: bool = False,
+             raising: float = 0.0) -> dict:
     """items refer to earlier items by index; ref = idx (the node / the Var) or [idx, "vn"] (value node
     of a Var, read directly)"""
     items: list[dict] = []
 
     def fs_for(nargs):
         return ["aff", rnd.randint(0, 999), [rnd.randint(1, 9) for _ in range(nargs)]]
+
+    def rz(d):
+        """cached node functions that raise when their result t has t mod m == r (only when asked for)"""
+        if raising and rnd.random() < raising:
+            m = rnd.choice([2, 3, 3, 4, 5])
+            d["raise"] = [m, rnd.randrange(m)]
+        return d
 
     def shape(d):
         """per_obs in {True, False} x scalar / vector-valued log_prob (only when asked for: other checks
@@ -137,7 +153,8 @@ def gen_spec(rnd: random.Random, nitems: int, flavour: str = "mixed", per_obs: b
             items.append({"k": "value", "v": rnd.randint(-50, 50), "data": rnd.random() < 0.2})
         elif k in ("calc", "tcalc"):
             ins, kws, kwn = args()
-            items.append({"k": k, "ins": ins, "kw": kws, "kwn": kwn, "fs": fs_for(len(ins) + len(kws))})
+            it = {"k": k, "ins": ins, "kw": kws, "kwn": kwn, "fs": fs_for(len(ins) + len(kws))}
+            items.append(rz(it) if k == "calc" else it)
         elif k == "tid":
             items.append({"k": "tid", "ins": pick_refs(1, False), "kw": [], "kwn": [], "fs": ["id"]})
         elif k == "group":
@@ -146,8 +163,9 @@ def gen_spec(rnd: random.Random, nitems: int, flavour: str = "mixed", per_obs: b
         elif k in ("dist", "tdist"):
             ins, kws, kwn = args(lo=1, hi=2)
             at = None if rnd.random() < 0.7 else (pick_refs(1, False) or [None])[0]
-            items.append(shape({"k": k, "ins": ins, "kw": kws, "kwn": kwn, "at": at, "atv": rnd.randint(-50, 50),
-                                "fs": fs_for(len(ins) + len(kws) + 1)}))
+            it = shape({"k": k, "ins": ins, "kw": kws, "kwn": kwn, "at": at, "atv": rnd.randint(-50, 50),
+                        "fs": fs_for(len(ins) + len(kws) + 1)})
+            items.append(rz(it) if k == "dist" else it)
         else:  # svar / wvar
             it = {"k": "var", "weak": k == "wvar", "role": rnd.choice(["", "", "obs", "par"])}
             if k == "svar":
@@ -156,10 +174,14 @@ def gen_spec(rnd: random.Random, nitems: int, flavour: str = "mixed", per_obs: b
                 ins, kws, kwn = args()
                 it.update(ins=ins, kw=kws, kwn=kwn, fs=fs_for(len(ins) + len(kws)),
                           tvalue=rnd.random() < 0.15)     # value node is a TransientCalc
+                if not it["tvalue"]:
+                    rz(it)
             if items and rnd.random() < (0.65 if k == "wvar" else 0.5):
                 dins, dkws, dkwn = args(lo=1, hi=2)
                 it["dist"] = shape({"ins": dins, "kw": dkws, "kwn": dkwn, "fs": fs_for(len(dins) + len(dkws) + 1),
                                     "transient": rnd.random() < 0.12})
+                if not it["dist"]["transient"]:
+                    rz(it["dist"])
             items.append(it)
     return {"items": items}
 
@@ -181,6 +203,9 @@ class Real:
         self.logging = False
         self.group_fs: dict[int, list] = {}
         self.dist_spec: dict[str, dict] = {}
+        self.raise_spec: dict[str, list | None] = {}
+        self.raised_at = None
+        self.last_err_kind = None
         objs: list = []
         items = spec["items"]
         roots = []
@@ -205,11 +230,16 @@ class Real:
             fs = it["fs"]
 
             def fn(*a, **kw):
-                if self.logging:
-                    self.log.append(name)
                 vals = [canon_arg(x, r) for x, r in zip(a, refs_in)]
                 vals += [canon_arg(kw[n], r) for n, r in zip(kwn, refs_kw)]
-                return apply_fs(fs, vals)
+                t = apply_fs(fs, vals)
+                if raises(it.get("raise"), t):
+                    self.raised_at = name
+                    raise HarnessRaise(f"{name}: designated failure for result {t}")
+                if self.logging:
+                    self.log.append(name)
+                return t
+            self.raise_spec[name] = it.get("raise")
             return fn
 
         def make_dist(name, d, refs_in, refs_kw, kwn):
@@ -222,14 +252,18 @@ class Real:
                     self.vals += [canon_arg(kw[n], r) for n, r in zip(kwn, refs_kw)]
 
                 def log_prob(self, at):
+                    t = apply_fs(fs, self.vals + [at])
+                    if raises(d.get("raise"), t):
+                        outer.raised_at = name
+                        raise HarnessRaise(f"{name}: designated failure for result {t}")
                     if outer.logging:
                         outer.log.append(name)
-                    t = apply_fs(fs, self.vals + [at])
                     if d.get("vec"):
                         c = d.get("split", 7)
                         return LP([t - c, c])
                     return t
             outer.dist_spec[name] = d
+            outer.raise_spec[name] = d.get("raise")
             return HDist
 
         for i, it in enumerate(items):
@@ -284,9 +318,20 @@ class Real:
             objs.append(o)
             roots.append(o)
         self.objs = objs
+        # history around the build: values assigned after the nodes were created (Calc nodes evaluate
+        # on creation) and before the build; build -> pop_nodes_and_vars -> assign -> build again
+        for idx, v in spec.get("pre") or []:
+            objs[idx].value = v
         gb = lsl.GraphBuilder(to_float32=False)
         gb.add(*roots)
         self.model = gb.build_model()
+        for rnd_assign in spec.get("rebuild") or []:
+            nodes, _vars = self.model.pop_nodes_and_vars()
+            for idx, v in rnd_assign:
+                objs[idx].value = v
+            gb = lsl.GraphBuilder(to_float32=False)
+            gb.add(*nodes.values(), *_vars.values())
+            self.model = gb.build_model()
         self._extract(order, order_seed)
 
     # canonical integer for the ArgGroup an InputGroup forwards
@@ -348,6 +393,7 @@ class Real:
         self.fs = [info[n]["fs"] for n in order]
         self.nodes = [info[n]["node"] for n in order]
         self.counted = [info[n]["kind"] == "C" and not n.startswith("_model_") for n in order]
+        self.rz = [getattr(self, "raise_spec", {}).get(n) if info[n]["kind"] == "C" else None for n in order]
         self.real_outs = [sorted({self.pos[o.name] for o in nd.outputs}) for nd in self.nodes]
         self.var_of = {}
         for vname, v in m.vars.items():
@@ -400,6 +446,8 @@ class Real:
         m = self.model
         self.log.clear()
         self.logging = True
+        self.raised_at = None
+        self.last_err_kind = None
         err = False
         try:
             if op[0] == "assign":
@@ -428,8 +476,16 @@ class Real:
                 m.state = st
             else:
                 raise ValueError(op)
-        except Exception:      # AttributeError / RuntimeError / KeyError today; any exception counts as 'raised'
+        except Exception as ex:      # AttributeError / RuntimeError / KeyError today; any exception counts as 'raised'
             err = True
+            # "fn": a node function of the harness raised in mid-sweep (possibly wrapped); "api": anything else
+            seen, e, kind = set(), ex, "api"
+            while e is not None and id(e) not in seen:
+                seen.add(id(e))
+                if isinstance(e, HarnessRaise):
+                    kind = "fn"
+                e = e.__cause__ or e.__context__
+            self.last_err_kind = kind
         finally:
             self.logging = False
         called = [self.pos[n] for n in self.log if self.counted[self.pos[n]]]
@@ -439,9 +495,16 @@ class Real:
 # ---------------------------------------------------------------------------------------------
 # Python mirror used by the oracle and the op generator (descendants, ancestors, from-scratch values)
 # ---------------------------------------------------------------------------------------------
+def pg_of(c):
+    pg = PG(c["kinds"], c["ins"], c["fs"], c.get("rz"))
+    pg.counted = c.get("counted")
+    return pg
+
+
 class PG:
-    def __init__(self, kinds, ins, fs):
+    def __init__(self, kinds, ins, fs, rz=None):
         self.kinds, self.ins, self.fs = kinds, ins, fs
+        self.rz = rz or [None] * len(kinds)
         n = len(kinds)
         self.n = n
         self.anc = [set() for _ in range(n)]       # proper ancestors
@@ -460,7 +523,11 @@ class PG:
             if self.kinds[k] == "V":
                 out[k] = vals[k]
             else:
-                out[k] = apply_fs(self.fs[k], [out[i] for i in self.ins[k]])
+                args = [out[i] for i in self.ins[k]]
+                if any(a is None for a in args):
+                    continue                      # undefined: a function it depends on raises from scratch
+                t = apply_fs(self.fs[k], args)
+                out[k] = None if raises(self.rz[k], t) else t
         return out
 
 
@@ -477,7 +544,8 @@ def check_history(pg: PG, init_obs, steps, ops):
         for k in range(n):
             if not flags[k] and vals[k] != sc[k]:
                 return (f"{where}: node {k} reports itself up to date but holds {vals[k]}, a from-scratch "
-                        f"recomputation from the current inputs gives {sc[k]}")
+                        f"recomputation from the current inputs "
+                        + ("raises" if sc[k] is None else f"gives {sc[k]}"))
         return None
 
     r = coherent(vals, flags, "after build")
@@ -488,10 +556,13 @@ def check_history(pg: PG, init_obs, steps, ops):
     for si, (op, ob) in enumerate(zip(ops, steps)):
         nvals, nflags, called, err = ob["vals"], ob["flags"], ob["called"], ob["err"]
         where = f"step {si} {op}"
-        if err:
+        fn_err = bool(err) and ob.get("kind") == "fn"      # a node function raised in mid-sweep
+        if err and not fn_err:
             if nvals != vals or nflags != flags:
                 return (si, f"{where}: raised but changed the model")
             continue
+        if fn_err and op[0] not in ("assign", "update"):
+            return (si, f"{where}: evaluated a node function (which raised)")
         r = coherent(nvals, nflags, where)
         if r:
             return (si, r)
@@ -514,9 +585,22 @@ def check_history(pg: PG, init_obs, steps, ops):
         touched = pre_touched
         for c in called:
             touched[c] = False
+        if fn_err:
+            f = ob.get("raised_at")
+            if f is not None and not pre_touched[f]:
+                return (si, f"{where}: cached node {f} was evaluated (and raised) although no ancestor was assigned "
+                            f"since it was last computed")
+            # everything that was not evaluated is as the sweep found it
+            for k in range(n):
+                if pg.kinds[k] == "C" and k not in called and (getattr(pg, "counted", None) or [True] * n)[k]:
+                    was = flags[k] or (op[0] == "assign" and k in pg.desc[op[1]])
+                    if nvals[k] != vals[k] or nflags[k] != was:
+                        return (si, f"{where}: node {k} was not evaluated before the exception, yet its value or flag changed")
         if op[0] == "assign":
-            if auto and any(nflags):
+            if auto and any(nflags) and not fn_err:
                 return (si, f"{where}: auto-update on, but nodes {[k for k in range(n) if nflags[k]]} stay outdated")
+            if fn_err and not auto:
+                return (si, f"{where}: auto-update off, but a node function was evaluated (and raised)")
             if not auto:
                 if called:
                     return (si, f"{where}: auto-update off, but nodes {called} were evaluated")
@@ -533,14 +617,14 @@ def check_history(pg: PG, init_obs, steps, ops):
                 return (si, f"{where}: toggling auto_update changed the model")
         elif op[0] == "update":
             if not op[1]:
-                if any(nflags):
+                if any(nflags) and not fn_err:
                     return (si, f"{where}: full update leaves nodes {[k for k in range(n) if nflags[k]]} outdated")
             else:
                 clo = set(op[1])
                 for t in op[1]:
                     clo |= pg.anc[t]
                 bad = [k for k in sorted(clo) if nflags[k]]
-                if bad:
+                if bad and not fn_err:
                     return (si, f"{where}: targeted update leaves nodes {bad} (targets or their ancestors) outdated")
                 for k in range(n):
                     if k not in clo and pg.kinds[k] == "C" and (nvals[k] != vals[k] or nflags[k] != flags[k]):
@@ -695,6 +779,34 @@ def gen_ops(rnd: random.Random, pg: PG, nops: int, scenario: str, edited: bool =
             else:
                 out.append(["restore_edited", nsnap - 1, [rnd.randrange(n)]])
                 out.append(["update", []] if rnd.random() < 0.5 else ["update", targets()])
+        elif name == "raise_continue":
+            # keep assigning (auto-update on) above a node whose function raises for some values, and go on
+            # after the exceptions: updates, snapshots, more assignments
+            R = [k for k in range(n) if pg.rz[k]]
+            tgtV = [a for k in R for a in pg.anc[k] if pg.kinds[a] == "V"] or Vd
+            # prefer inputs that also feed a cached node which does not depend on the raising one: it may be
+            # evaluated before the exception
+            pref = [a for k in R for a in pg.anc[k] if pg.kinds[a] == "V"
+                    and any(pg.kinds[c] == "C" and c != k and c not in pg.desc[k] for c in pg.desc[a])]
+            if pref:
+                tgtV = pref * 3 + tgtV
+            below = sorted({d for k in R for d in (pg.desc[k] | {k})}) or list(range(n))
+            out.append(["auto", True])
+            for _ in range(rnd.randint(3, 7)):
+                r = rnd.random()
+                if r < 0.55:
+                    out.append(assign(rnd.choice(tgtV)))
+                elif r < 0.65:
+                    out.append(["update", []])
+                elif r < 0.8:
+                    out.append(["update", [rnd.choice(below)]])
+                elif r < 0.88:
+                    out.append(["save"])
+                    nsnap += 1
+                elif nsnap:
+                    out.append(["restore", rnd.randrange(nsnap)])
+                else:
+                    out.append(["auto", rnd.random() < 0.7])
         elif name == "edited_random":
             if not nsnap:
                 out.append(["save"])
@@ -735,7 +847,8 @@ def gen_ops(rnd: random.Random, pg: PG, nops: int, scenario: str, edited: bool =
         else:
             ops += scen(rnd.choice(["auto_off_targeted", "dirty_snapshot", "toggle_join", "transient_target",
                                     "errors", "nothing_dirty", "clean_snapshot"]
-                                   + (["edited_dirty_parent", "edited_random", "edited_random"] if edited else [])))
+                                   + (["edited_dirty_parent", "edited_random", "edited_random"] if edited else [])
+                                   + (["raise_continue"] * 3 if edited and any(pg.rz) else [])))
     return ops
 
 
@@ -743,8 +856,13 @@ SCENARIOS = ["auto_off_targeted", "dirty_snapshot", "toggle_join", "nothing_dirt
              "errors", "clean_snapshot", "random", "edited_dirty_parent", "edited_random"]
 
 
-def run_history(spec, ops, order=None, order_seed=0):
-    """build the real model, apply the history, return the case dict (graph + observations)"""
+def run_history(spec, ops, order=None, order_seed=0, _retry=True):
+    """build the real model, apply the history, return the case dict (graph + observations).
+
+    Which nodes a sweep evaluates before a node function raises depends on the topological order the
+    implementation happens to use, which is not part of the property: if the observations of the raising
+    sweeps are not what the harness's own order predicts, an order consistent with them is computed (the
+    implementation's fixed order is one) and the history is run again with positions renamed."""
     real = Real(spec, order, order_seed)
     init = real.observe()
     snaps = []
@@ -752,10 +870,85 @@ def run_history(spec, ops, order=None, order_seed=0):
     for op in ops:
         called, err = real.apply(op, snaps)
         vals, flags = real.observe()
-        steps.append({"vals": vals, "flags": flags, "called": called, "err": err})
-    return {"spec": spec, "order": real.order, "kinds": real.kinds, "ins": real.ins, "fs": real.fs,
+        st = {"vals": vals, "flags": flags, "called": called, "err": err}
+        if err:
+            st["kind"] = real.last_err_kind
+            if real.last_err_kind == "fn" and real.raised_at in real.pos:
+                st["raised_at"] = real.pos[real.raised_at]
+        steps.append(st)
+    case = {"spec": spec, "order": real.order, "kinds": real.kinds, "ins": real.ins, "fs": real.fs, "rz": real.rz,
             "outs": real.real_outs, "counted": real.counted, "ext0": [v if k == "V" else 0 for v, k in zip(init[0], real.kinds)],
             "init": {"vals": init[0], "flags": init[1]}, "ops": ops, "steps": steps}
+    if _retry and any(st.get("kind") == "fn" for st in steps):
+        new = consistent_order(case)
+        if new is not None and new != real.order:
+            pos = {nm: i for i, nm in enumerate(new)}
+            old = real.order
+            mp = lambda k: pos[old[k]] if k < len(old) else k
+            ops2 = []
+            for op in ops:
+                if op[0] == "assign":
+                    ops2.append([op[0], mp(op[1])] + list(op[2:]))
+                elif op[0] == "update":
+                    ops2.append([op[0], [mp(t) for t in op[1]]])
+                elif op[0] == "restore_edited":
+                    ops2.append([op[0], op[1], [mp(t) for t in op[2]]])
+                else:
+                    ops2.append(list(op))
+            return run_history(spec, ops2, new, _retry=False)
+    return case
+
+
+def consistent_order(c):
+    """a topological order of the node graph in which, for every sweep that raised, the nodes evaluated before
+    the exception precede the raising node and the outdated nodes of the sweep that were not evaluated follow
+    it; None if there is none or nothing has to change"""
+    pg = pg_of(c)
+    n = pg.n
+    before = set()                      # (a, b): a must precede b
+    flags = c["init"]["flags"]
+    for op, st in zip(c["ops"], c["steps"]):
+        if st.get("kind") == "fn" and st.get("raised_at") is not None and op[0] in ("assign", "update"):
+            f = st["raised_at"]
+            if op[0] == "assign" or not op[1]:
+                clo = set(range(n))
+            else:
+                clo = set(t for t in op[1] if t < n)
+                for t in list(clo):
+                    clo |= pg.anc[t]
+            for k in clo:
+                if pg.kinds[k] != "C" or k == f:
+                    continue
+                was = flags[k] or (op[0] == "assign" and k in pg.desc[op[1]])
+                if not was:
+                    continue
+                before.add((k, f) if not st["flags"][k] else (f, k))
+        flags = st["flags"]
+    if all(a < b for a, b in before):
+        return None
+    succ = {k: set() for k in range(n)}
+    for k in range(n):
+        for i in pg.ins[k]:
+            succ[i].add(k)
+    for a, b in before:
+        succ[a].add(b)
+    indeg = {k: 0 for k in range(n)}
+    for a in succ:
+        for b in succ[a]:
+            indeg[b] += 1
+    ready = sorted(k for k in range(n) if indeg[k] == 0)
+    out = []
+    while ready:
+        k = ready.pop(0)
+        out.append(k)
+        for b in sorted(succ[k]):
+            indeg[b] -= 1
+            if indeg[b] == 0:
+                ready.append(b)
+                ready.sort()
+    if len(out) != n:
+        return None
+    return [c["order"][k] for k in out]
 
 
 def features(pg: PG):
@@ -770,12 +963,38 @@ def features(pg: PG):
     return f
 
 
-def make_case(rnd, quick, scenario, flavour, size=None, require=None):
+def add_prebuild(rnd, spec, mode):
+    """mode 'pre': assignments between node creation and build; 'rebuild': build, pop, assign, build again"""
+    free = [i for i, it in enumerate(spec["items"]) if it["k"] == "value" or (it["k"] == "var" and not it["weak"])]
+    if not free or mode is None:
+        return spec
+
+    def assigns():
+        return [[rnd.choice(free), rnd.randint(-99, 99)] for _ in range(rnd.randint(1, 3))]
+    if mode in ("pre", "both"):
+        spec["pre"] = assigns()
+    if mode in ("rebuild", "both"):
+        spec["rebuild"] = [assigns() for _ in range(rnd.choice([1, 1, 2]))]
+    return spec
+
+
+def has_harness_raise(ex):
+    seen = set()
+    while ex is not None and id(ex) not in seen:
+        seen.add(id(ex))
+        if isinstance(ex, HarnessRaise):
+            return True
+        ex = ex.__cause__ or ex.__context__
+    return False
+
+
+def make_case(rnd, quick, scenario, flavour, size=None, require=None, prebuild=None, raising=0.0):
     for _try in range(200):
         nitems = size or (rnd.randint(2, 7) if quick else rnd.choice([rnd.randint(2, 8), rnd.randint(6, 16)]))
         if require and _try > 0:
             nitems = max(nitems, 5)
-        spec = gen_spec(rnd, nitems, "transient" if require and _try > 3 else flavour, per_obs=True)
+        spec = gen_spec(rnd, nitems, "transient" if require and _try > 3 else flavour, per_obs=True, raising=raising)
+        spec = add_prebuild(rnd, spec, prebuild)
         oseed = rnd.randrange(2 ** 30)
         try:
             real = Real(spec, None, oseed)
@@ -785,12 +1004,14 @@ def make_case(rnd, quick, scenario, flavour, size=None, require=None):
         except Exception as ex:
             if type(ex).__name__ in ("NetworkXUnfeasible", "NetworkXError"):
                 continue              # cyclic simulation graph: not a C01 input (C15 rejects it)
+            if has_harness_raise(ex):
+                continue              # a designated failure at build time: there is no model
             import traceback
             return {"anomaly": f"building the model from this acyclic description raises {ex!r}: "
                                + traceback.format_exc().strip().splitlines()[-3].strip(),
                     "spec": spec, "ops": [], "order": None, "kinds": [], "ins": [], "fs": [],
                     "steps": [], "scenario": scenario, "flavour": flavour}
-        pg = PG(real.kinds, real.ins, real.fs)
+        pg = PG(real.kinds, real.ins, real.fs, real.rz)
         if require and require not in features(pg) and _try < 199:
             continue
         nops = rnd.randint(1, 25)
@@ -842,6 +1063,20 @@ CORPUS = [
                          "per_obs": False, "vec": True, "split": 5}]},
      "ops_by_name": [["update", []], ["update", ["v1_log_prob"]], ["assign", "n0", 5, "node"], ["auto", False],
                      ["assign", "v1_value", 8, "var"], ["update", ["_model_log_prob"]], ["update", []]]},
+    # x -> A; B = f(x, A) raises for even results: x := 2 evaluates A, then B raises; the history goes on   (seeded C01-7)
+    {"spec": {"items": [{"k": "value", "v": 1, "data": False},
+                        {"k": "calc", "ins": [0], "kw": [], "kwn": [], "fs": ["aff", 3, [2]]},
+                        {"k": "calc", "ins": [0, 1], "kw": [], "kwn": [], "fs": ["aff", 5, [3, 1]], "raise": [2, 0]},
+                        {"k": "calc", "ins": [1, 2], "kw": [], "kwn": [], "fs": ["aff", 1, [1, 1]]}]},
+     "ops_by_name": [["assign", "n0", 2, "node"], ["update", []], ["save"], ["update", ["n1"]],
+                     ["assign", "n0", 3, "node"], ["restore", 0], ["update", ["n3"]], ["auto", False],
+                     ["assign", "n0", 5, "node"], ["update", []]]},
+    # values assigned between node creation and build, then build -> pop -> assign -> build   (seeded C01-8)
+    {"spec": {"items": [{"k": "var", "weak": False, "role": "", "v": 3},
+                        {"k": "calc", "ins": [0], "kw": [], "kwn": [], "fs": ["aff", 2, [7]]},
+                        {"k": "calc", "ins": [1], "kw": [], "kwn": [], "fs": ["aff", 9, [2]]}],
+              "pre": [[0, 8]], "rebuild": [[[0, 11]]]},
+     "ops_by_name": [["update", []], ["assign", "v0_value", 4, "var"]]},
 ]
 
 
@@ -881,19 +1116,32 @@ def generate(ctx):
         scenario = SCENARIOS[i % len(SCENARIOS)]
         flavour = flavours[(i // len(SCENARIOS)) % len(flavours)]
         # forced stratum: every third graph has a transient node on a path between two cached nodes
+        # forced strata around the build: assignments between node creation and build (every 4th graph),
+        # build -> pop -> assign -> rebuild (every 8th), both (every 16th)
+        prebuild = {1: "pre", 5: "pre", 9: "pre", 13: "pre", 3: "rebuild", 11: "rebuild", 7: "both"}.get(i % 16)
+        # forced stratum: two of five graphs have cached node functions that raise for some argument values;
+        # every fifth history is built around them (raise_continue)
+        raising = 0.4 if i % 5 in (2, 4) else 0.0
+        if i % 5 == 4:
+            scenario = "raise_continue"
         cases.append(make_case(rnd, ctx.quick, scenario, flavour,
-                               require="transient_between_cached" if i % 3 == 1 else None))
+                               require="transient_between_cached" if i % 3 == 1 else None, prebuild=prebuild,
+                               raising=raising))
         i += 1
     nops = 0
     distinct = set()
     for c in cases:
-        pg = PG(c["kinds"], c["ins"], c["fs"])
+        pg = pg_of(c)
         ctx.hist("scenario." + c["scenario"])
         ctx.hist("flavour." + c["flavour"])
         n = pg.n
         ctx.hist("nodes." + ("<=8" if n <= 8 else "9-13" if n <= 13 else "14-24" if n <= 24 else ">=25"))
         for f in features(pg):
             ctx.hist("graph." + f)
+        if c["spec"].get("pre"):
+            ctx.hist("build.assignments_between_creation_and_build")
+        if c["spec"].get("rebuild"):
+            ctx.hist("build.pop_assign_rebuild")
         for it in c["spec"]["items"]:
             d = it if it["k"] in ("dist", "tdist") else it.get("dist")
             if d:
@@ -909,6 +1157,10 @@ def generate(ctx):
             ctx.hist(key + (".raises" if st["err"] else ""))
             if st["called"]:
                 ctx.hist("steps_that_evaluate")
+            if st.get("kind") == "fn":
+                ctx.hist("op." + op[0] + ".node_function_raises")
+                ctx.hist("raising.sweeps_with_nodes_evaluated_before_the_exception" if st["called"] else
+                         "raising.sweeps_failing_at_the_first_node")
             if any(st["flags"]):
                 ctx.hist("steps_leaving_outdated_nodes")
         distinct.add(json.dumps([c["kinds"], c["ins"], c["ops"]]))
@@ -949,7 +1201,7 @@ def generate(ctx):
 def oracle(c):
     if c.get("anomaly"):
         return c["anomaly"]
-    pg = PG(c["kinds"], c["ins"], c["fs"])
+    pg = pg_of(c)
     for k in range(pg.n):       # the positions must be a topological order of what the code shows
         if any(i >= k for i in c["ins"][k]):
             return "harness: order is not topological"
@@ -966,7 +1218,7 @@ def oracle(c):
 def shrink(c):
     """drop operations while the oracle still fails on the real code"""
     ops = list(c["ops"])
-    r = check_history(PG(c["kinds"], c["ins"], c["fs"]), (c["init"]["vals"], c["init"]["flags"]), c["steps"], c["ops"])
+    r = check_history(pg_of(c), (c["init"]["vals"], c["init"]["flags"]), c["steps"], c["ops"])
     if r and r[0] >= 0:
         ops = ops[:r[0] + 1]
 
@@ -1019,6 +1271,17 @@ def node_lit(kind, ins, fs):
     return f"(mkNode {kd} {lst(natlit(i) for i in ins)} {f})"
 
 
+def node_lit_f(kind, ins, fs, rz):
+    """node of a graph over CorrC01F.ffsym"""
+    if fs[0] == "aff":
+        f = f"(FAff {zlit(fs[1])} {lst(zlit(x) for x in fs[2])})"
+    else:
+        f = {"id": "FId", "sum": "FSum"}[fs[0]]
+    kd = {"V": "KValue", "C": "KCached", "T": "KTrans"}[kind]
+    ff = f"(FRaise {f} {zlit(rz[0])} {zlit(rz[1])})" if rz else f"(FPlain {f})"
+    return f"(mkNode {kd} {lst(natlit(i) for i in ins)} {ff})"
+
+
 def op_lit(op):
     if op[0] == "assign":
         return f"(Assign {natlit(op[1])} {zlit(op[2])})"
@@ -1043,11 +1306,12 @@ def obs_lit(vals, flags, called, err):
 
 
 def case_lit(c):
-    g = lst(node_lit(k, i, f) for k, i, f in zip(c["kinds"], c["ins"], c["fs"]))
+    rz = c.get("rz") or [None] * len(c["kinds"])
+    g = lst(node_lit_f(k, i, f, r) for k, i, f, r in zip(c["kinds"], c["ins"], c["fs"], rz))
     steps = lst(f"({xop_lit(op)}, {obs_lit(st['vals'], st['flags'], st['called'], st['err'])})"
                 for op, st in zip(c["ops"], c["steps"]))
     outs = lst(lst(natlit(j) for j in o) for o in c["outs"])
-    return (f"(mkXCase {g}\n   {lst(zlit(v) for v in c['ext0'])}\n   {outs}\n   {lst(blit(b) for b in c['counted'])}\n   "
+    return (f"(mkFCase {g}\n   {lst(zlit(v) for v in c['ext0'])}\n   {outs}\n   {lst(blit(b) for b in c['counted'])}\n   "
             f"{obs_lit(c['init']['vals'], c['init']['flags'], [], False)}\n   {steps})")
 
 
@@ -1059,14 +1323,14 @@ def emit(ctx, cases):
         idxs = good[k:k + per]
         defs = []
         for j, i in enumerate(idxs):
-            defs.append(f"Definition c{j} : c01xcase :=\n  {case_lit(cases[i])}.")
+            defs.append(f"Definition c{j} : c01fcase :=\n  {case_lit(cases[i])}.")
         small = [j for j, i in enumerate(idxs) if len(cases[i]["kinds"]) <= LIT_MAX_NODES]
         txt = HEADER + "\n".join(defs) + f"""
-Definition cases : list c01xcase := {lst(f'c{j}' for j in range(len(idxs)))}.
-Definition small_cases : list c01xcase := {lst(f'c{j}' for j in small)}.
-Lemma shard_ok : forallb agrees_x cases = true.
+Definition cases : list c01fcase := {lst(f'c{j}' for j in range(len(idxs)))}.
+Definition small_cases : list c01fcase := {lst(f'c{j}' for j in small)}.
+Lemma shard_ok : forallb agrees_f cases = true.
 Proof. vm_compute. reflexivity. Qed.
-Lemma shard_lit_ok : forallb agrees_lit_x small_cases = true.
+Lemma shard_lit_ok : forallb agrees_lit_f small_cases = true.
 Proof. vm_compute. reflexivity. Qed.
 """
         shards.append((ctx.new_shard(txt), idxs))
@@ -1075,7 +1339,7 @@ Proof. vm_compute. reflexivity. Qed.
 
 def diagnose(ctx, path, idxs, cases):
     txt = open(path).read().split("Lemma shard_ok")[0]
-    txt += "Eval vm_compute in (map verdict_x cases).\n"
+    txt += "Eval vm_compute in (map verdict_f cases).\n"
     ok, out = ctx.coq_eval(txt)
     vs = common.parse_nat_list(out)
     bad = []
@@ -1089,7 +1353,7 @@ def diagnose(ctx, path, idxs, cases):
     if not bad:
         # shard_ok holds, the literal-reader cross-check failed
         txt = open(path).read().split("Lemma shard_ok")[0]
-        txt += "Eval vm_compute in (failing agrees_lit_x small_cases).\n"
+        txt += "Eval vm_compute in (failing agrees_lit_f small_cases).\n"
         ok, out = ctx.coq_eval(txt.replace("From LV Require Import", "From LV Require Import Base.ListAux"))
         common.log("agrees_lit failing (indices into small_cases):", common.parse_nat_list(out))
     return bad
@@ -1109,7 +1373,7 @@ def search(ctx, disagreeing):
     t0 = time.time()
     for c in disagreeing:
         real = Real(c["spec"], c["order"])
-        pg = PG(real.kinds, real.ins, real.fs)
+        pg = PG(real.kinds, real.ins, real.fs, real.rz)
         for _ in range(40):
             ops = gen_ops(rnd, pg, rnd.randint(3, 25), rnd.choice(SCENARIOS), edited=True)
             cc = run_history(c["spec"], ops, c["order"])
